@@ -87,7 +87,15 @@ func (p *poller) addConn(c *Conn) error {
 		p.g.onUDPListen(c)
 	}
 	p.g.connsUnix[fd] = c
+	c.mux.Lock()
 	err := p.addRead(fd)
+	if err == nil && c.isWAdded {
+		// a write in the open callback left a backlog before the fd was
+		// registered: its request for the writing event was lost, set it now.
+		c.isWAdded = false
+		c.modWrite()
+	}
+	c.mux.Unlock()
 	if err != nil {
 		p.g.connsUnix[fd] = nil
 		_ = c.closeWithError(err)
